@@ -245,6 +245,9 @@ class Exploration:
                 self.infeasible += 1
             except PathEnd:
                 pass
+            except ProgExc as pe:
+                # an exception of the program under analysis escaped the PO text: every PO implicitly ensures that none does
+                p.vc(f"no-exception-escapes:{type(pe.exc).__name__}", False, kind="exception", site=str(pe.site))
             except (Unsupported, NativeLeak) as u:
                 self.unsupported.append(f"{type(u).__name__}: {u} [calls: {' > '.join(it.call_log[-4:])}]")
             work.extend(p.alts)
